@@ -147,3 +147,47 @@ package pmm
 //@   loop 1 (frame <= bootMemAllocator.kernelEndFrame) invariant frame >= bootMemAllocator.kernelStartFrame && frame <= bootMemAllocator.kernelEndFrame + 1 && layoutSame(alloc) && wfAlloc(alloc)
 //@   loop 1 invariant done: (poolIndex < 0 ==> unchanged(alloc)) && (poolIndex >= 0 ==> bitsSetRange(alloc, poolIndex, bootMemAllocator.kernelStartFrame, frame))
 //@   at return: inst poolIndex
+
+// ---- the early-boot allocator (C02) -------------------------------------------------------------
+// one memory-map entry e (raw pointer into the multiboot block): its whole frames
+//@ spec regStart(e uintptr) mm.Frame = mm.Frame(((mem64(e) + 4095) &^ 4095) >> 12)
+//@ spec regEnd(e uintptr) mm.Frame = mm.Frame(((mem64(e) + mem64(e+8)) &^ 4095) >> 12) - 1
+//@ pred regUsable(e uintptr) = mem32(e+16) == 1 && mem64(e+8) >= 4096
+//@ pred inKernel(a *BootMemAllocator, f mm.Frame) = a.kernelStartFrame <= f && f <= a.kernelEndFrame
+// entries describe physical memory: no wrap-around in start+length, below 2^52
+//@ pred regSane(e uintptr) = mem64(e) < 0x10000000000000 && mem64(e+8) < 0x10000000000000
+
+// the visitor: either the entry yields nothing (answer true, the error stays, the cursor does
+// not move backwards) or it yields the cursor's new value (answer false, error cleared): a
+// frame wholly inside this usable entry, outside the kernel image, above the previous cursor
+// (or at it for the very first allocation)
+// the kernel image lies wholly inside one entry's frames, or does not touch them
+//@ pred kernelPlaced(a *BootMemAllocator, e uintptr) = (regStart(e) <= a.kernelStartFrame && a.kernelEndFrame <= regEnd(e)) || a.kernelEndFrame < regStart(e) || regEnd(e) < a.kernelStartFrame
+// once a frame has been handed out the cursor is never inside the kernel image
+//@ pred cursorOK(a *BootMemAllocator) = a.allocCount > 0 ==> !inKernel(a, a.lastAllocFrame)
+// before the first hand-out the cursor has not passed the start of the entries still to come
+// (entries are visited in ascending order, see bootMapOK)
+//@ pred cursorEarly(a *BootMemAllocator, e uintptr) = a.allocCount == 0 && regUsable(e) ==> a.lastAllocFrame <= regStart(e)
+// an entry above the kernel image is reached only after the image's own entry has moved the
+// cursor past the frame just below the image
+//@ pred cursorPast(a *BootMemAllocator, e uintptr) = a.kernelEndFrame < regStart(e) ==> a.lastAllocFrame + 1 != a.kernelStartFrame
+//@ func (a *BootMemAllocator) AllocFrame$1(region *multiboot.MemoryMapEntry) (cont bool)
+//@   property C02
+//@   raw region
+//@   requires alloc != nil && addrof(region) < 0x1000000000000 && regSane(addrof(region)) && alloc.kernelStartFrame <= alloc.kernelEndFrame && alloc.kernelEndFrame < 0x10000000000000 && alloc.lastAllocFrame <= 0x10000000000000
+//@   requires kernelPlaced(alloc, addrof(region)) && cursorOK(alloc) && cursorEarly(alloc, addrof(region)) && cursorPast(alloc, addrof(region))
+//@   modifies alloc.lastAllocFrame, err
+//@   ensures cursor: cursorOK(alloc) && alloc.lastAllocFrame <= 0x10000000000000
+//@   ensures skip: cont ==> err == old(err) && alloc.lastAllocFrame >= old(alloc.lastAllocFrame)
+//@   ensures take: !cont ==> err == nil && regUsable(addrof(region)) && regStart(addrof(region)) <= alloc.lastAllocFrame && alloc.lastAllocFrame <= regEnd(addrof(region))
+//@   ensures kernel: !cont ==> !inKernel(alloc, alloc.lastAllocFrame)
+//@   ensures above: !cont && alloc.allocCount > 0 ==> alloc.lastAllocFrame > old(alloc.lastAllocFrame)
+
+// init: the protected frame range covers every byte of the kernel image
+//@ func (alloc *BootMemAllocator) init(kernelStart uintptr, kernelEnd uintptr)
+//@   property C02
+//@   requires alloc != nil && kernelStart < kernelEnd && kernelEnd <= 0x10000000000000
+//@   modifies alloc.kernelStartAddr, alloc.kernelEndAddr, alloc.kernelStartFrame, alloc.kernelEndFrame
+//@   ensures range: alloc.kernelStartFrame <= alloc.kernelEndFrame && alloc.kernelEndFrame < 0x10000000000000
+//@   ensures covers: forall(a, uintptr, kernelStart <= a && a < kernelEnd ==> inKernel(alloc, mm.Frame(a >> 12)))
+//@   ensures tight: alloc.kernelStartFrame == mm.Frame(kernelStart >> 12) && alloc.kernelEndFrame == mm.Frame((kernelEnd - 1) >> 12)
